@@ -469,7 +469,7 @@ impl Check for C15 {
         vec!["bit positions of the reference are transcribed from RFC 791/8200, IEEE 802.1Q/802.1AE and RFC 3376 diagrams".into()]
     }
     fn units(&self, tier: Tier) -> u64 {
-        N_CTOR + Self::flow_units(tier) + (HDRS.len() as u64) * 2 + 2
+        N_CTOR + Self::flow_units(tier) + (HDRS.len() as u64) * 5 + 2
     }
     fn expect_reach(&self, _tier: Tier) -> Vec<String> {
         vec!["ctor-ok".into(), "ctor-err".into(), "enc".into(), "dec-ok".into(), "dec-err".into(), "igmp-byte8".into(), "ipv6-traffic-class".into()]
@@ -565,9 +565,10 @@ impl Check for C15 {
             return;
         }
         let u = u - Self::flow_units(tier);
-        if u < (HDRS.len() as u64) * 2 {
-            let h = &HDRS[(u / 2) as usize];
-            if u % 2 == 0 {
+        if u < (HDRS.len() as u64) * 5 {
+            // per header: unit 0 = encode side, units 1..=4 = decode side with one background byte each
+            let h = &HDRS[(u / 5) as usize];
+            if u % 5 == 0 {
                 // ---- encode side
                 for (fi, (fname, _fs, fbits)) in h.fields.iter().enumerate() {
                     let vals = values_for(*fbits, thorough);
@@ -629,11 +630,12 @@ impl Check for C15 {
                 }
                 for (lo, hi) in windows {
                     let wbytes = hi - lo + 1;
-                    // windows of up to 2 bytes: complete; 3 bytes: complete in thorough, else two overlapping 2-byte sweeps
-                    let sweeps: Vec<(usize, usize)> = if wbytes <= 2 || thorough { vec![(lo, hi)] } else { (lo..hi).map(|i| (i, i + 1)).collect() };
+                    // windows are swept completely up to 2 bytes (quick) / 3 bytes (thorough); wider windows by overlapping sweeps of that width
+                    let w = if thorough { 3 } else { 2 };
+                    let sweeps: Vec<(usize, usize)> = if wbytes <= w { vec![(lo, hi)] } else { (lo..=hi + 1 - w).map(|i| (i, i + w - 1)).collect() };
                     for (slo, shi) in sweeps {
                         let sb = shi - slo + 1;
-                        for bgv in [0x00u8, 0xff, 0x0f, 0xf0] {
+                        for bgv in [[0x00u8, 0xff, 0x0f, 0xf0][(u % 5 - 1) as usize]] {
                             let total = 1u64 << (8 * sb);
                             let blocks = (total / 65536).max(1);
                             for blk in 0..blocks {
@@ -700,7 +702,7 @@ impl Check for C15 {
             }
             return;
         }
-        if u == (HDRS.len() as u64) * 2 + 1 {
+        if u == (HDRS.len() as u64) * 5 + 1 {
             // ---- IPv6 traffic class octet = DSCP(6) | ECN(2) through the struct level setters / getters, and what is encoded:
             // every start value of the octet x every ECN / DSCP value
             ctx.case(
